@@ -323,6 +323,71 @@ def scenario_concurrent(s, seed, nthreads, ncalls):
     return {"bad": bad, "plan": [(p[0], p[1], p[2]) for p in plan]}
 
 
+def scenario_clients_come_and_go(s, seed):
+    """several client contexts connect, disconnect and reconnect in a seeded order while the others keep
+    calling: every caller still receives the outcome of its own invocation (and none hangs)."""
+    import random
+    logging.disable(logging.CRITICAL)
+    from qmi.core.context import QMI_Context
+    from qmi.core.config_defs import CfgQmi, CfgContext
+    from qmi.core.exceptions import QMI_MessageDeliveryException
+    rng = random.Random(seed)
+    Echo = make_echo()
+    cfg = CfgQmi(contexts={"srv": CfgContext(tcp_server_port=5001)})
+    srv = QMI_Context("srv", cfg)
+    srv.start()
+    srv.make_rpc_object("echo", Echo)
+    bad, clients, log = [], {}, []
+    names = ["ca", "cb", "cc", "cd"]
+
+    def connect(n):
+        c = QMI_Context(n, cfg)
+        c.start()
+        c.connect_to_peer("srv", "127.0.0.1:5001")
+        clients[n] = (c, c.get_rpc_object_by_name("srv.echo"))
+
+    def call(n, k):
+        tag = (n, k)
+        try:
+            got = clients[n][1].ret(tag)
+        except BaseException as e:  # noqa
+            got = ("EXC", repr(e)[:80])
+        if got != tag:
+            bad.append({"client": n, "call": k, "got": repr(got), "history": list(log)})
+    k = 0
+    for step in range(rng.randint(6, 14)):
+        free = [n for n in names if n not in clients]
+        acts = (["connect"] if free else []) + (["disconnect", "call", "call", "callall"] if clients else [])
+        a = rng.choice(acts)
+        if a == "connect":
+            n = rng.choice(free)
+            log.append("connect " + n)
+            connect(n)
+        elif a == "disconnect":
+            n = rng.choice(sorted(clients))
+            log.append("disconnect " + n)
+            clients.pop(n)[0].stop()
+        elif a == "call":
+            n = rng.choice(sorted(clients))
+            k += 1
+            log.append("call %s %d" % (n, k))
+            call(n, k)
+        else:
+            ths = []
+            for n in sorted(clients):
+                k += 1
+                log.append("call* %s %d" % (n, k))
+                ths.append(real_threading.Thread(target=call, args=(n, k)))
+            for t in ths:
+                t.start()
+            for t in ths:
+                t.join()
+    for n in sorted(clients):
+        clients[n][0].stop()
+    srv.stop()
+    return {"bad": bad, "log": log}
+
+
 def run(ck):
     ck.level = "proof"
     ck.theory_dir = THEORY
@@ -395,6 +460,19 @@ def run(ck):
                       {"seed": ck.seed * 31 + i, "threads": 2 + i % 5, "schedule": res.get("choices"), "detail": b})
         if i < 2:
             ck.sample({"concurrent_plan": res["obs"]["plan"]}, 3)
+    # ---- part D: clients come and go
+    nd = 60 if ck.tier == "quick" else 1500
+    jobs = [(scenario_clients_come_and_go, (ck.seed * 53 + i,), dict(strategy="random" if i % 2 else "fifo", seed=ck.seed * 59 + i)) for i in range(nd)]
+    for i, res in enumerate(dsched.run_forked(jobs, nproc=16, wall_timeout=120)):
+        ck.note_case(("comego", ck.seed, i, tuple(res.get("choices") or ())), True)
+        ck.count("comego:" + res["status"])
+        if res["status"] != "ok":
+            ck.report("oracle:comego:%s" % res["status"], "clients connecting / disconnecting while others call: %s" % str(res.get("trace") or res.get("info"))[:400],
+                      {"comego_seed": ck.seed * 53 + i, "schedule": res.get("choices"), "strategy": "random" if i % 2 else "fifo"})
+            continue
+        for b in res["obs"]["bad"][:1]:
+            ck.report("oracle:comego:wrong-outcome", "after clients connected / disconnected a caller did not get the outcome of its own invocation: %s" % b,
+                      {"comego_seed": ck.seed * 53 + i, "schedule": res.get("choices"), "strategy": "random" if i % 2 else "fifo", "detail": b})
     return ck.finish("A: random hops incl. forged names (each distinct); B: generated values through direct/local/remote x blocking/non-blocking; "
                      "C: concurrent callers under seeded schedules")
 
@@ -405,6 +483,10 @@ def replay(rep):
     if "hop" in c:
         print("hop replay needs the payload; key:", c)
         return 1
+    if "comego_seed" in c:
+        res = dsched.run_forked([(scenario_clients_come_and_go, (c["comego_seed"],), dict(strategy="replay", schedule=list(c.get("schedule") or [])))], nproc=1)[0]
+        print(res["status"], (res.get("obs") or {}).get("bad"))
+        return 1 if (res["status"] != "ok" or res["obs"]["bad"]) else 0
     if "threads" in c:
         res = dsched.run_forked([(scenario_concurrent, (c["seed"], c["threads"], 3), dict(strategy="replay", schedule=list(c.get("schedule") or [])))], nproc=1)[0]
     else:
